@@ -17,7 +17,7 @@ func init() {
 		Explanation: "Decides the mechanism clauses of tombstone handling from source: (R1) in every localCAS branch the tombstone state is stored together with a timestamp of the merge's clock parameter, exactly for entries missing from the incoming value and not yet tombstones; " +
 			"(R2) the LWW tables give removals priority on equal timestamps (C03.R1 re-evaluated); (R3) the stored Mergeable (ValueDesc.value) is reachable only from a closed set of functions, KV.get strips all tombstones from a clone, and every value handed to a reader/watcher/CAS callback is get's result; " +
 			"(R4) RemoveTombstones is called only with the zero limit on the clone or with now-LeftIngestersTimeout under LeftIngestersTimeout>0; (R5) each RemoveTombstones implementation deletes iff tombstone ∧ (limit zero ∨ timestamp before limit); (R6) push/pull encodes the stored value unstripped. " +
-			" Also: (R7) Clone copies every entry, tombstones included (gossiped changes and push/pull are clones of stored values). NOT decided: that no interleaving of delayed messages resurrects an entry (a history property); these rules are its mechanism.",
+			" Also: (R7) Clone copies every entry, tombstones included (gossiped changes and push/pull are clones of stored values). (R8) a watcher is told about every later change, removals included: its wake-up is consumed only by the select that reads the value next (shared with C06.R11). NOT decided: that no interleaving of delayed messages resurrects an entry (a history property); these rules are its mechanism.",
 		Assumptions: []string{"the status page (http_status_handler.go) is an operator view, not a kv reader (documented exception)"},
 	}
 }
